@@ -4,7 +4,7 @@ use super::*;
 
 // --- C40 (ntpd_h): `deserialize_sample`, `SockSample` and `SampleError` are private.
 /// Accepted sample as raw fields `(offset, pulse, leap, magic)`; rejected sample as a small
-/// discriminant of `SampleError` (0 IO, 1 slice, 2 size, 3 magic, 4 pulse, 255 any variant added later).
+/// discriminant of `SampleError` (0 IO, 1 slice, 2 size, 3 magic, 4 pulse, 5 non-finite offset, 255 any variant added later).
 pub fn deserialize_sample_raw(
     result: Result<usize, std::io::Error>,
     buf: [u8; SOCK_SAMPLE_SIZE],
@@ -16,6 +16,7 @@ pub fn deserialize_sample_raw(
         Err(SampleError::WrongSize(_)) => Err(2),
         Err(SampleError::WrongMagic(_)) => Err(3),
         Err(SampleError::WrongPulse(_)) => Err(4),
+        Err(SampleError::NonFiniteOffset(_)) => Err(5),
         #[allow(unreachable_patterns)]
         Err(_) => Err(255),
     }
